@@ -993,7 +993,7 @@ def rule_valueden(ctx):
                 continue
             why = None
             for i, (q, pred, reason) in enumerate(VALUEDEN_REVIEWED):
-                if q == f.qual and pred(den):
+                if (q == f.qual or q in getattr(s, "inlined", ())) and pred(den):  # a review follows its code into the caller it was inlined into
                     why = reason
                     matched.add(i)
                     break
@@ -1063,7 +1063,8 @@ def rule_entropynorm(ctx):
     f = ctx.program.func("beat.information_gain", R)
     s = ctx.S.get(f.qual)
     calls = [c for c in s.calls() if c.callee == "beat._get_entropy"]
-    need(len(calls) == 2, R, "information_gain: forward/backward entropy calls not found")
+    inline_form = not calls and "beat._get_entropy" in s.inlined
+    need(len(calls) == 2 or inline_form, R, "information_gain: forward/backward entropy calls not found")
     norms = [strip_numeric(d.den) for d in s.by_kind("div") if d.d.get("op", "/") == "/"]
     logs = [n for n in norms if n.op == "call" and call_name(n) == "np.log2" and len(n.a[1]) == 1]
     need(logs, R, "information_gain: normaliser log2(bins) not found")
@@ -1078,9 +1079,17 @@ def rule_entropynorm(ctx):
             b = dict(c.kw).get("bins")
         good = b is not None and b is nb and same
         yield ob(R, f, "beat.information_gain:bins@%d" % i, good, "entropy call %d histograms into %s bins and the score is normalised by log2(%s)" % (i, tm.show(b, 2) if b is not None else "its own default number of", tm.show(nb, 2)), node=c.node)
-    sg = ctx.S.get(g.qual)
+    # (a helper evaluated in place: its histogram calls are sites of information_gain, and `bins` is that function's own)
+    if inline_form:
+        for i, h in enumerate(c for c in s.calls() if c.callee == "np.histogram"):
+            hb_ = h.args[1] if len(h.args) >= 2 else dict(h.kw).get("bins")
+            yield ob(R, f, "beat.information_gain:bins@%d" % i, hb_ is not None and "bins" in tm.params_of(hb_) and same, "histogram %d is binned by information_gain's own `bins`, and the score is normalised by log2(%s)" % (i, tm.show(nb, 2)), node=h.node)
+    sg = s if inline_form else ctx.S.get(g.qual)
     hist = [c for c in sg.calls() if c.callee == "np.histogram"]
-    need(len(hist) == 1, R, "_get_entropy: np.histogram call not found")
+    need(len(hist) == (2 if inline_form else 1), R, "_get_entropy: np.histogram call not found")
+    if inline_form:
+        need(all((h.args[1] if len(h.args) >= 2 else dict(h.kw).get("bins")) is (hist[0].args[1] if len(hist[0].args) >= 2 else dict(hist[0].kw).get("bins")) for h in hist), R, "the two histograms use different bin edges")
+        need(nb.op == "param" and nb.a[0] == "bins", R, "information_gain: normaliser is not log2(bins)")
     hb = hist[0].args[1] if len(hist[0].args) >= 2 else dict(hist[0].kw).get("bins")
     okb = hb is not None and "bins" in tm.params_of(hb)
     # np.linspace(-0.5, 0.5, bins + 1): exactly `bins` bins
